@@ -134,7 +134,7 @@ theorem retainLoop_spec (rest : List Char) :
           have hd0 : del = 0 := by omega
           have hJ : J = [] := by apply List.eq_nil_of_length_eq_zero; omega
           have := ih (k ++ [c]) [] T oracle.tail fuel buf (idx + c.utf8Size) del len
-            (by rw [hbuf, hJ, encode_append, encode_singleton, encode_cons]; simp only [List.append_assoc, List.append_nil, List.nil_append])
+            (by rw [hbuf, hJ, encode_append, encode_singleton, encode_cons]; simp only [List.append_assoc, List.append_nil])
             (by simp [hd0])
             (by rw [encode_append, encode_singleton, List.length_append]; omega) (by omega) (by simpa using hfuel)
           obtain ⟨s', h1, h2, h3, h4⟩ := this
@@ -151,9 +151,9 @@ theorem retain_spec (s : State) (cs : List Char) (oracle : List Outcome) (h : Ho
   have hl := h.len
   have hbuf : s.buf = encode [] ++ [] ++ encode cs ++ s.buf.drop s.len := by
     have := List.take_append_drop s.len s.buf
-    rw [← h.2]; simpa [State.bytes] using this.symm
+    rw [← h.2]; simp [State.bytes]
   obtain ⟨s', h1, h2, h3, h4⟩ := retainLoop_spec cs [] [] (s.buf.drop s.len) oracle s.len s.buf 0 0 s.len hbuf rfl
     (by simp) (by simp [hl]) (by rw [hl]; exact length_le_encode_length cs)
-  exact ⟨s', h1, ⟨h2, by simpa using h3⟩, h4⟩
+  exact ⟨s', h1, ⟨h2, by simp at h3; exact h3⟩, h4⟩
 
 end Str
